@@ -37,7 +37,52 @@ def _mol(rng, name, n, tree, p_h, origin, n_res=1):
     return spec
 
 
+SHIPPED_PAIRS = {"CUR": (("CUR_map.gro", "CUR_CG.itp"), ("CUR_AA.gro", "CUR_AA.itp")),
+                 "VTE": (("VTE_map.gro", "vitamin_E_CG.itp"), ("VTE_AA.gro", "VTE_AA.itp")),
+                 "BMIM": (("system_bmimbf4_cg.gro", "BMIM_CG.itp"), ("BMIM_AA.gro", "BMIM_AA.itp")),
+                 "BF4": (("system_bmimbf4_cg.gro", "BF4_CG.itp"), ("BF4_AA.gro", "BF4_AA.itp"))}
+_SHIPPED_CACHE = {}
+
+
+def spec_from_molecule(mol):
+    edges = sorted({tuple(sorted((a.index, b))) for a in mol.molecule_top for b in a.bonds})
+    top = mol.molecule_top
+    return {"name": mol.name, "atom_names": [a.name for a in top], "resnames": [a.resname for a in top],
+            "resids": [a.resid for a in top], "edges": [list(e) for e in edges],
+            "positions": [[float(x) for x in p] for p in mol.atoms_positions]}
+
+
+def shipped_specs(name):
+    """(start-resolution spec, end-resolution spec) of a shipped molecule pair, read once through the real parsers."""
+    if name not in _SHIPPED_CACHE:
+        import gaddlemaps
+        from gaddlemaps.components import Molecule, System
+        D = gaddlemaps.DATA_FILES_PATH
+        (g1, t1), (g2, t2) = SHIPPED_PAIRS[name]
+        if g1.startswith("system"):
+            cg = System(D[g1], D[t1])[0]
+        else:
+            cg = Molecule.from_files(D[g1], D[t1])
+        aa = Molecule.from_files(D[g2], D[t2])
+        _SHIPPED_CACHE[name] = (spec_from_molecule(cg), spec_from_molecule(aa))
+    a, b = _SHIPPED_CACHE[name]
+    import copy
+    return copy.deepcopy(a), copy.deepcopy(b)
+
+
 def generate(rng, tier, focus):
+    if rng.random() < (0.015 if tier == "quick" else 0.04):
+        name = rng.choice(sorted(SHIPPED_PAIRS))
+        cg, aa = shipped_specs(name)
+        start, end = (cg, aa) if rng.random() < 0.7 else (aa, cg)
+        ns, ne = len(start["positions"]), len(end["positions"])
+        n_mob = min(ns, ne)
+        restr = [] if rng.random() < 0.6 else [[rng.randrange(ns), rng.randrange(ne)] for _ in range(rng.randint(1, 3))]
+        allowed = [0, 1] + ([2] if n_mob >= 2 else [])
+        return {"focus": focus, "mode": "align", "start": start, "end": end, "restraints": restr,
+                "deform": None if rng.random() < 0.5 else rng.sample(allowed, rng.randint(1, len(allowed))),
+                "ignore_h": rng.random() < 0.7, "steps_factor": rng.choice([1, 1, 2]), "sigma_scale": 0.5,
+                "np_seed": rng.randrange(2 ** 32), "script": gen_script(rng), "shipped": name}
     big = tier == "thorough" and rng.random() < 0.25
     hi = 40 if big else 12
     c = rng.random()
@@ -721,6 +766,8 @@ def execute(trace, ctx):
 
     ali, watch, outcome, info, (ini_s, ini_e) = run(True)
     ctx.op(trace["mode"], outcome)
+    if trace.get("shipped"):
+        ctx.probe("shipped_pair")
     if outcome == "extra-draw":
         return
     if outcome.startswith("raised"):
